@@ -55,8 +55,13 @@ class IntOps:
             self.ctx.auto_obligation("no-signed-overflow:" + why,
                                      z3.Or(expr < -(1 << (w - 1)), expr >= (1 << (w - 1))))
             return expr
+        mk = ("wrap", expr.get_id(), w)
+        hit = self.ctx.memo.get(mk)
+        if hit is not None:
+            return hit[0]
         v = z3.Int(self.ctx.fresh_name("wr"))
         k = z3.Int(self.ctx.fresh_name("wk"))
+        self.ctx.memo[mk] = (v, expr)
         self.ctx.add_fact(z3.And(v >= 0, v < (1 << w), expr == v + (1 << w) * k))
         return v
 
@@ -204,6 +209,8 @@ class IntOps:
             if not signed:
                 # constant-chain folding (DESIGN 3.1): remember v = (x*c) mod 2^w
                 x, c = (a, b) if is_term(a) else (b, a)
+                if r.get_id() not in self.ctx.mulchain:
+                    self.ctx.mulwit.append(r)
                 self.ctx.mulchain[r.get_id()] = (x, c, w)
                 ch = self.ctx.mulchain.get(x.get_id())
                 if ch is not None and ch[2] == w:
@@ -240,6 +247,16 @@ class IntOps:
             return A % (b + 1)
         if op == "&" and not signed and not is_term(a) and (a & (a + 1)) == 0:
             return B % (a + 1)
+        if op in ("|", "&", "^") and not signed:
+            # sound abstraction by true axioms (enough for zero tests such as IsZero)
+            r = z3.Int(self.ctx.fresh_name("bit" + {"|": "or", "&": "and", "^": "xor"}[op]))
+            if op == "|":
+                self.ctx.add_fact(z3.And(r >= A, r >= B, r <= A + B, r < (1 << w)))
+            elif op == "&":
+                self.ctx.add_fact(z3.And(r >= 0, r <= A, r <= B))
+            else:
+                self.ctx.add_fact(z3.And(r >= A - B, r >= B - A, r <= A + B, r < (1 << w)))
+            return r
         raise Unsupported("int-mode binop %s" % op)
 
     # ---------------------------------------------------------------- unop / convert
